@@ -825,6 +825,10 @@ func (p *ProjectRunner) removeProcess(name string) error {
 			running.waitForCompletion()
 		}
 	}
+	// the removed process must not keep a state entry of its own
+	p.statesMutex.Lock()
+	delete(p.processStates, name)
+	p.statesMutex.Unlock()
 	return nil
 }
 
